@@ -39,17 +39,34 @@ def _getattr_dyn(ex, st, v, name, k, where):
         has = _dyn_has(ex, vv.t, ex.unwrap(name).t)
         outs = ex.raise_(st.assume(Not(has)), "AttributeError", where)
         s2 = st.assume(has)
-        outs += k(s2, VOpt(ex.arbitrary(BOOL, "attr_none"), VAny(ex.arbitrary(INT, "attrval"))))
+        # reading the same attribute twice without a setattr in between gives the same value: the value is an
+        # uninterpreted function of (object, name, store version); every setattr_dyn starts a new version
+        ver = _dyn_version(ex, s2)
+        ex.decls.fun("gen_attr_none", [INT, STR, INT], BOOL)
+        ex.decls.fun("gen_attr_val", [INT, STR, INT], INT)
+        nm = ex.unwrap(name).t
+        outs += k(s2, VOpt(app("gen_attr_none", BOOL, vv.t, nm, ver), VAny(app("gen_attr_val", INT, vv.t, nm, ver))))
         return outs
     if _prev_get is None:
         raise Unsupported(f"getattr with a computed name at {where}")
     return _prev_get(ex, st, v, name, k, where)
 
 
+def _dyn_version(ex, st):
+    from pyvc.values import VInt
+    from pyvc.smt import I
+    v = st.ghost.get("$dynver")
+    return v.t if v is not None else I(0)
+
+
 @R.specfn("setattr_dyn")
 def _setattr_dyn(ex, st, v, name, val, k, where):
     """setattr(obj, <computed name>, value) on an attribute container: the dynamic-attribute store is uninterpreted
-    (gen_hasattr is a fixed predicate here, which over-approximates: later reads are arbitrary anyway); raises nothing"""
+    (gen_hasattr is a fixed predicate here; later reads see a NEW store version, i.e. arbitrary values); raises nothing"""
+    from pyvc.values import VInt
+    st = st.copy()
+    st.ghost = dict(st.ghost)
+    st.ghost["$dynver"] = VInt(ex.arbitrary(INT, "dynver"))
     return k(st, VNone)
 
 
@@ -77,3 +94,80 @@ R.loop("assign_attr_from_defs", 0, invariants=[("t", "True")],
                     "avp_value": "Opt[Any]", "avp_key": "str"})
 R.assume("C03/C04: container classes (AvpGenDef.type_class) are constructed without arguments and do not raise; setattr on an "
          "attribute container does not raise; the rows table `needed` is an arbitrary table (region)")
+
+# ---- generate_avps_from_defs: what is emitted for each row (encode side of C03) ---------------------------------------
+from pyvc.spec import Clause  # noqa
+
+R.contract("Avp.new", trusted=True,
+           params={"avp_code": "int", "vendor_id": "int", "value": "Opt[Any]", "is_mandatory": "Opt[bool]",
+                   "is_private": "Opt[bool]"},
+           returns="Avp",
+           ensures=[("fields", "result.code == avp_code and result._vendor_id == vendor_id"),
+                    ("flags", "result.flags == ite(vendor_id != 0, 128, 0) "
+                              "+ ite(new_m(dict_entry(avp_code, vendor_id), is_mandatory), 64, 0) "
+                              "+ ite(is_none(is_private), 0, ite(some(is_private), 32, 0))")],
+           raises=[Raise("ValueError", "not dict_known(avp_code, vendor_id)", "iff"),
+                   Raise("AvpEncodeError", "not is_none(value)", "only_if")],
+           allocates=True,
+           note="ASSUMED composite of Avp.new with a value: code, vendor and flags as in the verified variant Avp.new#novalue; "
+                "the typed value setter (each verified under C01) runs inside `except Exception -> AvpEncodeError`")
+R.contract("Avp.value.fset", trusted=True, params={"self": "Avp", "new_value": "Any"},
+           raises=[Raise("AvpEncodeError", "True", "may")], modifies=["self.payload", "self._avps"],
+           note="behavioural contract of the polymorphic value setter: only payload/_avps change, only AvpEncodeError")
+@R.specfn("gen_has")
+def _gen_has(ex, st, obj, name):
+    return VBool(_dyn_has(ex, ex.unwrap(obj).t, ex.unwrap(name).t))
+
+
+@R.specfn("gen_none")
+def _gen_none(ex, st, obj, name):
+    ex.decls.fun("gen_attr_none", [INT, STR, INT], BOOL)
+    return VBool(app("gen_attr_none", BOOL, ex.unwrap(obj).t, ex.unwrap(name).t, _dyn_version(ex, st)))
+
+
+@R.specfn("gen_is_list")
+def _gen_is_list(ex, st, obj, name):
+    ex.decls.fun("gen_attr_val", [INT, STR, INT], INT)
+    ex.decls.fun("tok_isinst", [INT, INT], BOOL)
+    tok = app("gen_attr_val", INT, ex.unwrap(obj).t, ex.unwrap(name).t, _dyn_version(ex, st))
+    return VBool(app("tok_isinst", BOOL, tok, ex.class_id("list")))
+
+
+R.macro("attr_set", ["o", "row"], "gen_has(o, row.attr_name) and not gen_none(o, row.attr_name)")
+R.macro("row_avp", ["a", "row"],
+        "a.code == row.avp_code and a._vendor_id == row.vendor_id and "
+        "bit6(a.flags) == ite(new_m(dict_entry(row.avp_code, row.vendor_id), row.is_mandatory), 1, 0) and "
+        "bit7(a.flags) == ite(row.vendor_id != 0, 1, 0)")
+R.kind_hints[("generate_avps_from_defs", "[]")] = "List[Avp]"
+R.contract("generate_avps_from_defs", params={"obj": "AvpGenerator", "strict": "bool"}, returns="List[Avp]",
+           ensures=[("a-new-list", "fresh(result)"),
+                    ("undeclared-avps-follow-unchanged-at-the-end",
+                     "implies(has_avp_def(obj) and has(obj, 'additional_avps'), len(result) >= len(obj.additional_avps) and "
+                     "items(result)[len(result) - len(obj.additional_avps):] == items(obj.additional_avps))")],
+           raises=[Raise("ValueError", "True", "may"), Raise("AvpEncodeError", "True", "may")],
+           modifies=["*Avp.payload", "*Avp._avps"], props=["C03"],
+           note="only ValueError (strict mode / unknown AVP) and AvpEncodeError escape; what each row contributes is the step "
+                "clause of the loop over the rows")
+_GROW = "items(avp_list)[0:prev(len(avp_list))] == prev(items(avp_list)) and len(avp_list) >= prev(len(avp_list))"
+R.loop("generate_avps_from_defs", 0,
+       ghost={"j": "int"},
+       invariants=[("list-is-new", "fresh(avp_list)")],
+       step=[("earlier-avps-stay", _GROW),
+             ("every-avp-emitted-for-a-row-carries-the-rows-code-vendor-and-m-flag",
+              "implies(prev(len(avp_list)) <= j and j < len(avp_list), row_avp(avp_list[j], cur))"),
+             ("an-unset-attribute-emits-nothing",
+              "implies(prev(not attr_set(obj, cur)), len(avp_list) == prev(len(avp_list)))"),
+             ("a-set-scalar-attribute-emits-exactly-one-avp",
+              "implies(prev(attr_set(obj, cur) and not gen_is_list(obj, cur.attr_name)), len(avp_list) == prev(len(avp_list)) + 1)")],
+       modifies=["list:avp_list", "*Avp.payload", "*Avp._avps"],
+       local_kinds={"attr_value": "Opt[Any]", "grouped_avp": "Avp", "single_avp": "Avp", "sub_avps": "List[Avp]",
+                    "value": "Any"})
+for _o in (1, 2):
+    R.loop("generate_avps_from_defs", _o,
+           entry_snap={"n_in": "len(avp_list)", "items_in": "items(avp_list)"},
+           invariants=[("list-is-new", "fresh(avp_list)"),
+                       ("avps-emitted-before-this-row-stay", "items(avp_list)[0:n_in] == items_in and len(avp_list) >= n_in"),
+                       ("avps-emitted-for-this-row-carry-its-code-vendor-and-m-flag",
+                        "implies(n_in <= j and j < len(avp_list), row_avp(avp_list[j], gen_def))")],
+           modifies=["list:avp_list", "*Avp.payload", "*Avp._avps"],
+           local_kinds={"grouped_avp": "Avp", "single_avp": "Avp", "sub_avps": "List[Avp]", "value": "Any"})
